@@ -17,11 +17,13 @@ use tokio::sync::oneshot;
 use tracing::{debug, error, warn};
 use uuid::Uuid;
 
-use crate::bucket::event_index::ClosedEventIndex;
+use crate::bucket::event_index::{ClosedEventIndex, OpenEventIndex};
 use crate::bucket::iter::{PartitionIter, PartitionIterConfig, StreamIter, StreamIterConfig};
-use crate::bucket::partition_index::{ClosedPartitionIndex, PartitionIndexRecord};
+use crate::bucket::partition_index::{
+    ClosedPartitionIndex, OpenPartitionIndex, PartitionIndexRecord,
+};
 use crate::bucket::segment::{BucketSegmentReader, CommittedEvents, EventRecord};
-use crate::bucket::stream_index::{ClosedStreamIndex, StreamIndexRecord};
+use crate::bucket::stream_index::{ClosedStreamIndex, OpenStreamIndex, StreamIndexRecord};
 use crate::bucket::{BucketId, BucketSegmentId, PartitionId, SegmentId};
 use crate::cache::BLOCK_SIZE;
 use crate::error::{
@@ -672,19 +674,54 @@ impl DatabaseBuilder {
                 continue;
             };
 
-            let reader = BucketSegmentReader::open(events, None)?;
+            let mut reader = BucketSegmentReader::open(events, None)?;
 
-            let event_index = event_index
-                .map(|path| ClosedEventIndex::open(bucket_segment_id, path))
-                .transpose()?;
-            let partition_index = partition_index
-                .map(|path| ClosedPartitionIndex::open(bucket_segment_id, path))
-                .transpose()?;
-            let stream_index = stream_index
-                .map(|path| {
-                    ClosedStreamIndex::open(bucket_segment_id, path, self.segment_size_bytes)
-                })
-                .transpose()?;
+            // The index files of a sealed segment are written in the background after the
+            // rollover, without fsync. After a crash they can be empty or hold a prefix: rebuild
+            // such an index from the segment instead of refusing to open the database.
+            let event_index = match event_index {
+                Some(path) => Some(match ClosedEventIndex::open(bucket_segment_id, &path) {
+                    Ok(index) => index,
+                    Err(err) => {
+                        warn!("rebuilding event index of {bucket_segment_id}: {err}");
+                        let mut index = OpenEventIndex::open(bucket_segment_id, &path)?;
+                        index.hydrate(&mut reader)?;
+                        index.close(&thread_pool)?
+                    }
+                }),
+                None => None,
+            };
+            let partition_index = match partition_index {
+                Some(path) => Some(match ClosedPartitionIndex::open(bucket_segment_id, &path) {
+                    Ok(index) => index,
+                    Err(err) => {
+                        warn!("rebuilding partition index of {bucket_segment_id}: {err}");
+                        let mut index = OpenPartitionIndex::open(bucket_segment_id, &path)?;
+                        index.hydrate(&mut reader)?;
+                        index.close(&thread_pool)?
+                    }
+                }),
+                None => None,
+            };
+            let stream_index = match stream_index {
+                Some(path) => Some(
+                    match ClosedStreamIndex::open(bucket_segment_id, &path, self.segment_size_bytes)
+                    {
+                        Ok(index) => index,
+                        Err(err) => {
+                            warn!("rebuilding stream index of {bucket_segment_id}: {err}");
+                            let mut index = OpenStreamIndex::open(
+                                bucket_segment_id,
+                                &path,
+                                self.segment_size_bytes,
+                            )?;
+                            index.hydrate(&mut reader)?;
+                            index.close(&thread_pool)?
+                        }
+                    },
+                ),
+                None => None,
+            };
 
             reader_pool.add_bucket_segment(
                 bucket_segment_id,
